@@ -501,9 +501,28 @@ class GenAudit:
                 if a.GetTotalNumHs() != tok.hs[i]:
                     self.viol("C05", "hydrogen_count", f"atom {i} ({a.GetSymbol()}) of {tok.name} instance carries "
                               f"{a.GetTotalNumHs()} H, the notation implies {tok.hs[i]}")
-                ri = a.GetPDBResidueInfo()
-                if ri is not None:
-                    pass
+        # the residue labels the library writes on the atoms (PDB residue info) show the same partition: one label per
+        # instance, the same label for instances of one token, different labels for different tokens (the naming scheme itself
+        # is not part of the property; molecules without labels are not judged)
+        label_of_tok = {}
+        for (u, off, n) in ledger:
+            tok = self.inst[u]["tok"]
+            labels = set()
+            for i in range(min(n, natoms - off)):
+                ri = mol.GetAtomWithIdx(off + i).GetPDBResidueInfo()
+                labels.add(None if ri is None else (ri.GetResidueName(), ri.GetResidueNumber()))
+            if labels == {None}:
+                continue
+            if len(labels) != 1:
+                self.viol("C05", "residue_labels", f"atoms of one instance of {tok.name} carry the residue labels {sorted(map(str, labels))}")
+                break
+            lab = next(iter(labels))
+            prev = label_of_tok.setdefault(id(tok), lab)
+            if prev != lab:
+                self.viol("C05", "residue_labels", f"two instances of {tok.name} carry different residue labels {prev} / {lab}")
+                break
+        if len(set(label_of_tok.values())) != len(label_of_tok):
+            self.viol("C05", "residue_labels", "instances of different tokens carry the same residue label")
         internal = {}
         cross = []
         for b in mol.GetBonds():
